@@ -186,6 +186,10 @@ func checkC06(c *Ctx) {
 	c.expectNF(f, "C06.k", "searchForward", []string{`seq[assign($0 := p1); for((); ($0 < len(p0)); assign($0 ++ 1)){if(isStringAt(p0, $0, p2), return($0), seq[])}] -1`}, "the first position at or after start where the string occurs, -1 if none")
 	c.expectNF(f, "C06.k", "isStringAt", []string{`if(((p1 + len(p2)) > len(p0)), false, seq[range($0 _ : p2){if((p2[$0] != p0[(p1 + $0)]), return(false), seq[])}] true)`}, "the string occurs at the position (false past the end)")
 	c.expectNF(f, "C06.k", "isCharAt", []string{`if((p1 >= len(p0)), false, (p0[p1] == p2))`}, "the byte at the position (false past the end)")
+	// the if parser: one-line and multi-line forms; after `then` and `else` line ends are SKIPPED (a body may start on
+	// the same line or on a later one), never required (closed form as reviewed, including the recorded
+	// dangling-else behaviour of rule (i))
+	c.expectNF(f, "C06.de", "parseIfAfterIfExpr", []string{`if(psCurIs(var:New_TokenType_EOL, psConsume(var:New_TokenType_THEN, #0(p0(p2)))), if(psCurIs(var:New_TokenType_ELSE, psSkipEOL(#0(p1(psSkipEOL(psConsume(var:New_TokenType_THEN, #0(p0(p2)))))))), (#0(p1(psSkipEOL(psConsume(var:New_TokenType_ELSE, psSkipEOL(#0(p1(psSkipEOL(psConsume(var:New_TokenType_THEN, #0(p0(p2))))))))))), newIfElseCall(psTypeVarGen(psConsume(var:New_TokenType_THEN, #0(p0(p2)))), #1(p0(p2)), #1(p1(psSkipEOL(psConsume(var:New_TokenType_THEN, #0(p0(p2)))))), #1(p1(psSkipEOL(psConsume(var:New_TokenType_ELSE, psSkipEOL(#0(p1(psSkipEOL(psConsume(var:New_TokenType_THEN, #0(p0(p2))))))))))))), if(psCurIs(var:New_TokenType_ELIF, psSkipEOL(#0(p1(psSkipEOL(psConsume(var:New_TokenType_THEN, #0(p0(p2)))))))), (#0(parseIfAfterIfExpr(p0, p1, psConsume(var:New_TokenType_ELIF, psSkipEOL(#0(p1(psSkipEOL(psConsume(var:New_TokenType_THEN, #0(p0(p2)))))))))), newIfElseCall(psTypeVarGen(psConsume(var:New_TokenType_THEN, #0(p0(p2)))), #1(p0(p2)), #1(p1(psSkipEOL(psConsume(var:New_TokenType_THEN, #0(p0(p2)))))), exprOnlyBlock(#1(parseIfAfterIfExpr(p0, p1, psConsume(var:New_TokenType_ELIF, psSkipEOL(#0(p1(psSkipEOL(psConsume(var:New_TokenType_THEN, #0(p0(p2))))))))))))), (#0(p1(psSkipEOL(psConsume(var:New_TokenType_THEN, #0(p0(p2)))))), newIfOnlyCall(psTypeVarGen(psConsume(var:New_TokenType_THEN, #0(p0(p2)))), #1(p0(p2)), #1(p1(psSkipEOL(psConsume(var:New_TokenType_THEN, #0(p0(p2)))))))))), if(psCurIs(var:New_TokenType_ELSE, #0(parseInlineBlock(p0, psConsume(var:New_TokenType_THEN, #0(p0(p2)))))), (#0(parseInlineBlock(p0, psConsume(var:New_TokenType_ELSE, #0(parseInlineBlock(p0, psConsume(var:New_TokenType_THEN, #0(p0(p2)))))))), newIfElseCall(psTypeVarGen(psConsume(var:New_TokenType_THEN, #0(p0(p2)))), #1(p0(p2)), #1(parseInlineBlock(p0, psConsume(var:New_TokenType_THEN, #0(p0(p2))))), #1(parseInlineBlock(p0, psConsume(var:New_TokenType_ELSE, #0(parseInlineBlock(p0, psConsume(var:New_TokenType_THEN, #0(p0(p2)))))))))), (#0(parseInlineBlock(p0, psConsume(var:New_TokenType_THEN, #0(p0(p2))))), newIfOnlyCall(psTypeVarGen(psConsume(var:New_TokenType_THEN, #0(p0(p2)))), #1(p0(p2)), #1(parseInlineBlock(p0, psConsume(var:New_TokenType_THEN, #0(p0(p2)))))))))`}, "then/else bodies may start on the same line or after any number of line ends; elif chains recurse; the one-line form ends at the line end")
 	r.Rule("C06.j", "after `=`, `with` and the `->` of a lambda or match rule the parser skips line ends before parsing what follows (what follows may start on the next line); the arrow of a type is the one exception", 10)
 	checkSkipAfterContinuationTokens(c, f, "C06.j")
 	checkRelevantReviewedForms(c, f, "C06.z", "a layout primitive (line-end skipping, columns, offside stack, adjacency)",
